@@ -27,4 +27,4 @@ for p in $PID; do
 PYTHONPATH=$WT:. PYTHONDONTWRITEBYTECODE=1 PYTHONHASHSEED=0 /venv/bin/python -m vf.run $p quick 2>&1 | grep -E "^VIOLATION|bucket=|^C[0-9]+ |HARNESS" | cut -c1-300 | head -${MUT_LINES:-8}
 done
 git -C $WT checkout -q -- .
-git -C /verif checkout -q -- evidence 2>/dev/null
+git -C /verif checkout -q -- ':(glob)evidence/*.json' 2>/dev/null
